@@ -4,6 +4,7 @@
        [ev |-> "sched", id, r]        Schedule / ScheduleWithTimeout / Invoke returned r ("ok" | "full" | "closed" | "timeout")
        [ev |-> "start" | "end", id]   job id begins / ends (a panicking job has no "end" but a "panic")
        [ev |-> "panic", id]           job id panicked
+       [ev |-> "stalehandler", id]    a panic handler that SetPanicHandler had replaced earlier was called
        [ev |-> "handler", id]         the panic handler was called (id = the job named in the panic value, 0 = something else)
      quiesced (the run waited for quiescence with the pool left open), accepted / ran at quiescence;
      prealloc (PreAllocWorkerSize argument, 0 = not called).
@@ -23,6 +24,7 @@ Why(r) ==
   ELSE IF \E id \in Ids(E, "start") : CountEv(E, "start", id) > 1 THEN "a job was executed twice"
   ELSE IF Ids(E, "start") \cap Rejected(E) # {} THEN "a rejected job was run"
   ELSE IF \E k \in DOMAIN E : Running(E, k) > r.max THEN "more than workerSizeMaximum jobs executing at one instant"
+  ELSE IF Ids(E, "stalehandler") # {} THEN "a panic was reported to a panic handler that had been replaced before the job was submitted"
   ELSE IF \E id \in Ids(E, "panic") : CountEv(E, "handler", id) # 1 THEN "a panicking job was not reported exactly once to the panic handler"
   ELSE IF \E id \in Ids(E, "handler") : id \notin Ids(E, "panic") THEN "the panic handler was invoked for something that is not a job's own panic"
   ELSE IF r.quiesced /\ ~(Accepted(E) \subseteq Ids(E, "start")) THEN "an accepted job never ran although the pool was left open"
